@@ -959,6 +959,27 @@ fn run_top(t: usize, op: &TOp, arenas: &mut Vec<Option<Box<Arena>>>, handles: &m
                     }
                     // write the unique pattern through the handle, register in the shadow store
                     let mut bytes = if cap > 0 { unsafe { std::slice::from_raw_parts(a.raw_ptr().add(off), cap) }.to_vec() } else { Vec::new() };
+                    // C03 under interleavings: requested capacity and alignment
+                    {
+                        let ti = crate::types::ty_info(*ty);
+                        let bad: Option<String> = match kind {
+                            AllocKind::Bytes => (cap != *size as usize).then(|| format!("alloc_bytes({}) returned capacity {}", size, cap)),
+                            AllocKind::Typed => (ti.size > 0 && (cap != ti.size || off % ti.align != 0)).then(|| format!("alloc::<{}>() returned offset {} capacity {}", ti.name, off, cap)),
+                            AllocKind::Aligned => {
+                                let need = if ti.size == 0 { *size as usize } else { ti.size + *size as usize };
+                                ((ti.size > 0 && off % ti.align != 0) || cap < need).then(|| format!("alloc_aligned_bytes::<{}>({}) returned offset {} (align {}) capacity {} < {}", ti.name, size, off, ti.align, cap, need))
+                            }
+                        };
+                        if let Some(d) = bad {
+                            with(|s| s.violation("C03", "layout", format!("[under interleaving] T{} {}", t, d)));
+                        }
+                    }
+                    // C08 under interleavings: alloc_bytes returns zero-filled memory
+                    if *kind == AllocKind::Bytes {
+                        if let Some(i) = bytes.iter().position(|b| *b != 0) {
+                            with(|s| s.violation("C08", "not_zeroed", format!("[alloc_bytes under interleaving] T{} alloc_bytes({}) -> [{},{}) byte +{} is {:#x} at return", t, size, off, off + cap, i, bytes[i])));
+                        }
+                    }
                     if !p.is_null() && cap > 0 {
                         bytes = pattern(id, cap);
                         unsafe { std::ptr::copy_nonoverlapping(bytes.as_ptr(), p, cap) };
